@@ -589,12 +589,13 @@ def c07_call(X, pre, args_text, post=""):
     return None
 
 
-def c07_sub(X, form, cmd, rest):
-    """form + cmd + '!' + rest + closer: the rest of the bracket's text, stripped, as one string"""
+def c07_sub(X, form, cmd, rest, after=""):
+    """form + cmd + '!' + rest + closer + after: the rest of the bracket's text, stripped, as one string; `after` (code on the same
+    line behind ';' and/or on later lines) parses as it does behind a macro-free subprocess"""
     closer, method = FORMS[form]
     if any(c in rest for c in "()[]{}'\"#\\`\n") or closer in rest or rest[:1] in ("=", "(", "["):
         return None
-    src = f"{form}{cmd}!{rest}{closer}\n"
+    src = f"{form}{cmd}!{rest}{closer}{after}\n"
     tk, toks = O.run_tokens(X, src)
     if tk != "ok" or any(t.type == X.tokenize.Token.ERRORTOKEN for t in toks):
         return None
@@ -608,6 +609,15 @@ def c07_sub(X, form, cmd, rest):
     got = [x.value if isinstance(x, ast.Constant) else ast.dump(x)[:40] for x in a]
     if got != [cmd, rest.strip()]:
         return {"kind": "subproc-macro-arguments-differ", "observed": got, "expected": [cmd, rest.strip()], "source": src}
+    if after:
+        k0, t0 = O.run_parse(X, f"{form}{cmd} x{closer}{after}\n", "exec")
+        if k0 == "ok":
+            def masked(tree):
+                c = sorted(_find_calls(tree, method), key=lambda c: (c.lineno, c.col_offset))[0]
+                c.args[:] = [ast.Constant(value="<args>")]
+                return ast.dump(tree)
+            if masked(t) != masked(t0):
+                return {"kind": "code-after-subproc-macro-differs", "observed": masked(t)[:300], "expected": masked(t0)[:300], "source": src}
     return None
 
 
